@@ -139,7 +139,7 @@ PROPS["C05"] = {
 
 PROPS["C10"] = {
     "modules": ["Foundation.Proofs.C10"],
-    "level_text": "Machine-checked over a two-ledger model with any number of ids and users, both directions: the record life cycle (duplicate id, repeated commit, cancel after commit, delete before commit, any step on an absent record are rejected; initiation debits exactly once; cancel refunds exactly) holds for all callers; for every interleaving of user steps, rejected attempts and protocol robot steps (robot may stop anywhere and resume from ledger state) the invariant srcA(u)+dstB(u)+in-flight(u)=funding(u) holds, hence units are never spendable in both channels, a destination credit happens at most once per id with the origin's user and amount, and when nothing is in flight everything debited has been credited (given counters follow these flows exactly). Tied to the code by an exhaustive walk of all step sequences to depth 4 (quick) / 6 (thorough) on one id and random two-id/two-user histories on two real chaincode instances.",
+    "level_text": "Machine-checked over a two-ledger model with any number of ids and users, both directions: the record life cycle (duplicate id, repeated commit, cancel after commit, delete before commit, any step on an absent record are rejected; initiation debits exactly once; cancel refunds exactly) holds for all callers; for every interleaving of user steps, rejected attempts and protocol robot steps (robot may stop anywhere and resume from ledger state) the invariant srcA(u)+dstB(u)+in-flight(u)=funding(u) holds, hence units are never spendable in both channels, a destination credit happens at most once per id with the origin's user and amount, and when nothing is in flight everything debited has been credited (given counters follow these flows exactly). Tied to the code by an exhaustive walk of all step sequences to depth 4 (quick) / 5 (thorough) on one id and random two-id/two-user histories on two real chaincode instances.",
     "level_note": "Trusted: Lean kernel + 3 axioms; the robot obeys the stated protocol for create-to / delete-to / delete-from / cancel ordering (the chaincode cannot see the other ledger) - hypothesis `allowed`, printed in the evidence; batched steps are atomic (C04); keys built by concatenation (fix 54b00c3).",
     "trusted_base": ["core/bc_chtransfer.go modelled by Foundation.ChTransfer.step; protocol by ChTransfer.allowed"],
     "hypotheses": ["robot protocol: create-to only for an open origin record with its exact content and no destination record; commit only when the destination record exists; delete-to only after commit; delete-from and cancel only when the destination record is absent"],
